@@ -222,7 +222,7 @@ func (s *c18Sys) apply(op C18Op, r *c18Rec) {
 		id, _, _ := s.id("hist", op)
 		r.ptrs[id] = append(r.ptrs[id], unsafe.Pointer(h))
 		last := h.Percentile(0)
-		for _, p := range []float64{1, 50, 90, 95, 99, 100} {
+		for _, p := range []float64{0.25, 0.5, 0.9, 0.99, 1, 1.5, 5, 25, 50, 75, 90, 95, 99, 99.9, 100} {
 			v := h.Percentile(p)
 			if v < last {
 				r.errs = append(r.errs, fmt.Sprintf("histogram %s: percentile %v = %v is below a lower percentile's %v", id, p, v, last))
@@ -433,7 +433,7 @@ func runC18(c C18Case) *Outcome {
 				return fail("hist-sum", "histogram %s reports sum %v, observations add up to %d", k, h.Sum(), obsSum[id])
 			}
 			last := h.Percentile(0)
-			for _, p := range []float64{1, 50, 90, 95, 99, 100} {
+			for _, p := range []float64{0.25, 0.5, 0.9, 0.99, 1, 1.5, 5, 25, 50, 75, 90, 95, 99, 99.9, 100} {
 				v := h.Percentile(p)
 				if v < last {
 					return fail("percentile", "histogram %s: percentile %v = %v is below a lower percentile's %v", k, p, v, last)
